@@ -7,7 +7,7 @@ docs/SPECIFICATION.md sections 4-8.
 """
 import os
 
-from .. import common, langrun, nanoref as nr
+from .. import common, langrun, nanoref as nr, xfam
 from . import langcommon as lc
 
 LAYERS = ["op_matrix", "effect_order", "layer_F", "layer_D", "layer_S", "layer_E"]
@@ -137,6 +137,7 @@ def run(tier):
                 rep.violation("exit:%s:%s" % (eng, name), {"program.nano": src}, "%s: %s exits %s (stdout %r), specification: %d" % (name, eng, rc, out[:40], want))
         judged += 1
     judged += hashmap_family(rep, tier, lang)
+    xfam.judge(rep, "C02", lang, tier)      # text-template families: features outside the typed AST enumerator
     rep.count("states", judged)
     rep.count("traces_validated_against_impl", judged)
     rep.coverage["cases_enumerated"] = len(cases)
